@@ -244,6 +244,7 @@ def load_db(cfg, drivers=None, log=None):
             pass
     # helpers no rule knows are transparent: their bodies are spliced into their callers' graphs (engine/inline.py)
     from . import inline
+    inline.self_test()
     db.n_inlined = inline.inline_helpers(db)
     if os.environ.get('VERIF_RENAME'):
         # development self-test: every parameter and local variable of the analysed program gets another name;
